@@ -28,6 +28,9 @@
 #ifndef REPAIR_LEVEL_MAX
 #define REPAIR_LEVEL_MAX 4
 #endif
+#ifndef NATT
+#define NATT 24 /* upper bound on reconstruction attempts: C(levels, failed) */
+#endif
 
 struct verif_in {
 	/* blockcmp */
@@ -43,7 +46,9 @@ struct verif_in {
 	int cmp[NFAIL];          /* what blockcmp answers for entry j */
 	unsigned level;
 	int readable[LEV_MAX];   /* buffer_recov[l] != 0 */
-	int verdict[24];         /* what the k-th validation answers */
+	int verdict[NATT];         /* what the k-th validation answers */
+	int hkind[3];            /* repair_chg: 0 invalid, 1 zero, 2 ordinary recorded hash */
+	unsigned char slot[3][BS];
 };
 VERIF_DECLARE_IN
 
@@ -55,9 +60,11 @@ static size_t g_memhash_size;
 static unsigned g_memhash_calls;
 
 static unsigned g_gen_calls, g_data_calls, g_valid_calls, g_last_valid_result, g_last_valid_kind;
-static unsigned g_data_r[24];
-static int g_data_ip[24][LEV_MAX];
+static unsigned g_data_r[NATT];
+static int g_data_ip[NATT][LEV_MAX];
 static unsigned g_cmp_calls;
+static const unsigned char *g_cmp_buf[4];
+static const struct snapraid_block *g_cmp_blk[4];
 
 #ifdef VERIF_CBMC
 void memhash(unsigned kind, const unsigned char *seed, void *digest, const void *src, size_t size)
@@ -82,8 +89,10 @@ const char *lev_config_name(unsigned l) { (void)l; return "p"; }
 
 /* contracts of the callees of is_hash_matching / repair_step (used with --replace-call-with-contract) */
 static int blockcmp(struct snapraid_state *state, int rehash, struct snapraid_block *block, unsigned pos_size, unsigned char *buffer, unsigned char *buffer_zero)
+__CPROVER_requires(g_cmp_calls < 4)
 __CPROVER_ensures(__CPROVER_return_value == IN.cmp[g_cmp_calls - 1 < NFAIL ? g_cmp_calls - 1 : NFAIL - 1] && g_cmp_calls == __CPROVER_old(g_cmp_calls) + 1)
-__CPROVER_assigns(g_cmp_calls);
+__CPROVER_ensures(g_cmp_buf[__CPROVER_old(g_cmp_calls)] == buffer && g_cmp_blk[__CPROVER_old(g_cmp_calls)] == block)
+__CPROVER_assigns(g_cmp_calls, g_cmp_buf[g_cmp_calls], g_cmp_blk[g_cmp_calls]);
 
 unsigned file_block_size(struct snapraid_file *file, block_off_t file_pos, unsigned block_size)
 __CPROVER_ensures(__CPROVER_return_value <= block_size)
@@ -94,20 +103,20 @@ __CPROVER_ensures(g_gen_calls == __CPROVER_old(g_gen_calls) + 1)
 __CPROVER_assigns(g_gen_calls);
 
 void raid_data(int nr, int *id, int *ip, int nd, size_t size, void **v)
-__CPROVER_requires(nr >= 1 && nr <= LEV_MAX && g_data_calls < 24)
+__CPROVER_requires(nr >= 1 && nr <= LEV_MAX && g_data_calls < NATT)
 __CPROVER_ensures(g_data_calls == __CPROVER_old(g_data_calls) + 1)
 __CPROVER_ensures(g_data_r[__CPROVER_old(g_data_calls)] == (unsigned)nr)
 __CPROVER_ensures(g_data_ip[__CPROVER_old(g_data_calls)][0] == ip[0] && (nr < 2 || g_data_ip[__CPROVER_old(g_data_calls)][1] == ip[1]) && (nr < 3 || g_data_ip[__CPROVER_old(g_data_calls)][2] == ip[2]))
 __CPROVER_assigns(g_data_calls, g_data_r[g_data_calls], g_data_ip[g_data_calls][0], g_data_ip[g_data_calls][1], g_data_ip[g_data_calls][2]);
 
 static int is_hash_matching(struct snapraid_state *state, int rehash, unsigned diskmax, struct failed_struct *failed, unsigned *failed_map, unsigned failed_count, void **buffer, void *buffer_zero)
-__CPROVER_requires(g_valid_calls < 24)
+__CPROVER_requires(g_valid_calls < NATT)
 __CPROVER_ensures(g_valid_calls == __CPROVER_old(g_valid_calls) + 1 && g_last_valid_kind == 1)
 __CPROVER_ensures(__CPROVER_return_value == (IN.verdict[__CPROVER_old(g_valid_calls)] != 0) && g_last_valid_result == (unsigned)__CPROVER_return_value)
 __CPROVER_assigns(g_valid_calls, g_last_valid_kind, g_last_valid_result);
 
 static int is_parity_matching(struct snapraid_state *state, unsigned diskmax, unsigned i, void **buffer, void **buffer_recov)
-__CPROVER_requires(g_valid_calls < 24)
+__CPROVER_requires(g_valid_calls < NATT)
 __CPROVER_ensures(g_valid_calls == __CPROVER_old(g_valid_calls) + 1 && g_last_valid_kind == 2)
 __CPROVER_ensures(__CPROVER_return_value == (IN.verdict[__CPROVER_old(g_valid_calls)] != 0) && g_last_valid_result == (unsigned)__CPROVER_return_value)
 __CPROVER_assigns(g_valid_calls, g_last_valid_kind, g_last_valid_result);
@@ -208,6 +217,74 @@ void h_is_hash_matching(void)
 	VERIF_CANARY();
 }
 
+/*
+ * Region of repair(): after a validated reconstruction, decide for every bad block WITHOUT an up-to-date hash (CHG)
+ * whether what was rebuilt may be the old version: hash unknown -> unsure; recorded past hash "zero" and the rebuilt
+ * block of THAT entry all zero -> unsure; recorded past hash equal to the hash of the rebuilt block of THAT entry ->
+ * unsure; otherwise it is the new version. "Unsure" entries end as .unrecoverable, never as recovered (C05).
+ */
+#ifdef VERIF_CHG_REGION
+#include "region_repair_chg.c"
+
+void h_repair_chg(void)
+{
+	void *buffer[NFAIL + LEV_MAX];
+	static unsigned char R0[BS], R1[BS], R2[BS], Z[BS];
+	unsigned char *const R[3] = { R0, R1, R2 };
+	unsigned j, calls = 0;
+	int k;
+	VERIF_INPUTS();
+	setup_failed();
+	VERIF_ASSUME(IN.failed_count <= 3);
+	BLOCK_HASH_SIZE = 16;
+	for (j = 0; j < NFAIL + LEV_MAX; ++j)
+		buffer[j] = DATA[j];
+	for (j = 0; j < 3 && j < NFAIL; ++j) {
+		struct snapraid_block *b = (struct snapraid_block *)BLK[j];
+		/* entry j lives in data slot 2-j: position in failed[] and disk slot differ */
+		FAILED[j].index = 2 - j;
+		FAILED[j].is_bad = IN.readable[j] != 0;
+		VERIF_ASSUME(!(FAILED[j].is_bad && IN.bstate[j] == BLOCK_STATE_DELETED)); /* repair() asserts this before the region */
+		FAILED[j].is_outofdate = 0;
+		for (k = 0; k < HASH_MAX; ++k)
+			b->hash[k] = IN.hkind[j] == 0 ? 0xff : IN.hkind[j] == 1 ? 0 : (unsigned char)(k + 1); /* invalid / zero / ordinary (elem.h conventions, checked below) */
+		for (k = 0; k < BS; ++k)
+			R[2 - j][k] = IN.slot[2 - j][k];
+		buffer[2 - j] = R[2 - j];
+	}
+	for (k = 0; k < BS; ++k)
+		Z[k] = 0;
+#ifdef VERIF_NATIVE
+	exit(77);
+#endif
+	g_cmp_calls = 0;
+	region_repair_chg(&ST, IN.rehash, FAILED, IN.failed_count, buffer, Z);
+
+	for (j = 0; j < 3 && j < NFAIL; ++j) {
+		struct snapraid_block *b = (struct snapraid_block *)BLK[j];
+		int expect = 0;
+		if (j < IN.failed_count && FAILED[j].is_bad && IN.bstate[j] == BLOCK_STATE_CHG) {
+			if (hash_is_invalid(b->hash)) {
+				expect = 1;
+			} else if (hash_is_zero(b->hash)) {
+				int allzero = 1;
+				for (k = 0; k < BS; ++k)
+					allzero &= IN.slot[2 - j][k] == 0;
+				expect = allzero;
+			} else {
+				VERIF_ASSERT(calls < 4 && g_cmp_buf[calls] == R[2 - j] && g_cmp_blk[calls] == b, "the rebuilt block compared with a recorded past hash is the one of the same entry");
+				expect = IN.cmp[calls < NFAIL ? calls : NFAIL - 1] == 0;
+				++calls;
+			}
+		}
+		if (j < IN.failed_count)
+			VERIF_ASSERT(FAILED[j].is_outofdate == expect, "a rebuilt pending block is trusted only when it provably is the new version");
+	}
+	VERIF_ASSERT(g_cmp_calls == calls, "blockcmp is consulted only for pending blocks with an ordinary past hash");
+	VERIF_CANARY();
+}
+#endif
+
 /* ---------------------------------------------------------------- repair_step */
 static unsigned choose(unsigned m, unsigned r)
 {
@@ -263,7 +340,7 @@ void h_repair_step(void)
 	}
 	/* index of the first accepting validation among the possible attempts */
 	first_ok = attempts_expect;
-	for (k = 0; k < 24; ++k)
+	for (k = 0; k < NATT; ++k)
 		if (k < attempts_expect && first_ok == attempts_expect && IN.verdict[k])
 			first_ok = k;
 
@@ -277,7 +354,7 @@ void h_repair_step(void)
 		VERIF_ASSERT(g_valid_calls == attempts_expect, "repair_step tries every combination of readable parities exactly once");
 		VERIF_ASSERT(ret == (attempts_expect == 0 ? -1 : (int)attempts_expect), "repair_step: -1 iff no attempt was possible, else the number of failed attempts");
 	}
-	for (k = 0; k < 24; ++k)
+	for (k = 0; k < NATT; ++k)
 		if (k < g_data_calls) {
 			VERIF_ASSERT(g_data_r[k] == (has_hash ? r_expect : r_expect - 1), "repair_step recovers with failed_count parities");
 			for (l = 0; l < LEV_MAX; ++l)
